@@ -26,13 +26,22 @@ pub fn static_prop(p: &str) -> Option<&'static str> {
 }
 
 pub fn implemented() -> Vec<&'static str> {
-    vec!["C01", "C02", "C04", "C07", "C08"]
+    vec!["C01", "C02", "C03", "C04", "C05", "C06", "C07", "C08", "C09", "C12", "C13", "C14", "C15", "C16"]
 }
 
 pub fn execute(prop: &'static str, tier: Tier, choices: Choices, record_trace: bool) -> Outcome {
     let world = World::new(choices, FaultCfg::default(), record_trace);
     let scn = match prop {
         "C01" | "C02" | "C04" | "C07" | "C08" => scen::xfer(prop, tier, &world),
+        "C03" => crate::scen_srv::confine(tier, &world),
+        "C05" => crate::scen_srv::hostile(tier, &world),
+        "C06" => crate::scen_srv::policy(tier, &world),
+        "C09" => crate::scen_srv::options(tier, &world),
+        "C12" => crate::scen_more::isolation(tier, &world),
+        "C13" => crate::scen_more::cleanup(tier, &world),
+        "C14" => crate::scen_more::clientserver(tier, &world),
+        "C15" => crate::scen_more::wrap(tier, &world),
+        "C16" => crate::scen_more::dupmode(tier, &world),
         _ => panic!("no scenario for {prop}"),
     };
     let end = world.run(scn.step_cap, scn.time_cap);
